@@ -25,6 +25,7 @@ import MTVerif.Props.C13
 import MTVerif.Lemmas.Normal
 import MTVerif.Lemmas.RewriteNoTD
 import MTVerif.Props.C11
+import MTVerif.Lemmas.Enforce
 namespace MT.C01
 open MT MT.Anno
 
@@ -132,6 +133,33 @@ theorem pipeline_text_sound (h : Hier)
   refine ⟨t', he, fun v hv => ?_⟩
   rw [hs v]
   exact pipeline_sound h htrans hbase hrefl env nm cfg k vs hwv hstor rows hrows v hv
+
+/-- `shrink_traced_types` first applies the size limit of the stub run to every stored type (`enforce k`, C06).  On the rows of
+    this theorem's history — recorded under the same limit `k` — that is the identity, so `positionType` above is what the
+    code computes. -/
+theorem stub_time_limit_is_identity (env : Env) (nm : Names) (k : Nat) (vs : List Val)
+    (hstor : ∀ t ∈ getTypes k vs, t.storable env nm = true)
+    (rows : List Json) (hrows : ∀ j, j ∈ rows ↔ j ∈ (getTypes k vs).map (encodeTy nm)) :
+    (decodeAll env rows).map (enforce k) = decodeAll env rows := by
+  apply map_enforce_id
+  intro t ht
+  have hm := (decodeAll_mem env nm _ (fun t ht => ⟨hstor t ht, getTypes_normal k vs t ht⟩) rows hrows t).mp ht
+  exact ⟨getTypes_tdOk k vs t hm, getTypes_normal k vs t hm⟩
+
+/-- … and when the limits differ (traces recorded under any limits, stub generated at `k`): a value that is a tight member of
+    one of the stored types is still a member of the emitted type -/
+theorem position_admits_any_limit (h : Hier)
+    (htrans : ∀ a b c, h.sub a b = true → h.sub b c = true → h.sub a c = true)
+    (hbase : ∀ c b, h.bases c = [b] → h.sub c b = true) (hrefl : ∀ c, h.sub c c = true)
+    (cfg : RwCfg) (k : Nat) (ts : List Ty) (hw : ∀ t ∈ ts, t.wf = true) (v : Val)
+    (hv : ∃ t ∈ ts, conforms h.sub false t v = true) :
+    conforms h.sub true (positionType h cfg k (ts.map (enforce k))) v = true := by
+  apply position_admits h htrans hbase hrefl cfg k
+  · intro t ht
+    obtain ⟨u, hu, rfl⟩ := List.mem_map.mp ht
+    exact enforce_wf k u (hw u hu)
+  · obtain ⟨t, ht, hc⟩ := hv
+    exact ⟨enforce k t, List.mem_map.mpr ⟨t, ht, rfl⟩, enforce_widens h.sub false hrefl k t v (hw t ht) hc⟩
 
 theorem rewriteChain_wf (h : Hier) : ∀ (rs : List RW) (t : Ty), t.wf = true → (rewriteChain h rs t).wf = true
   | [], _, hw => hw
